@@ -253,3 +253,11 @@ Fixpoint gtrace (st : sys) (P R : list elem) (evs : list event) : sys * list ele
   end.
 Fixpoint all_ok_cons (st : sys) (evs : list event) : bool :=
   match evs with [] => true | e :: r => ok_cons st e && all_ok_cons (step st e) r end.
+
+(** reregister-no-recheck: client 1 waits on q and r; its element on q is taken before the
+    wake-up runs while r receives an element; the wake-up registers it again on q and r without
+    looking at r *)
+Definition w_recheck : list event :=
+  [EConnect 1; EConnect 2; at0 1 [bs "BLPOP"; bs "q"; bs "r"; bs "0"] (Some 0);
+   at0 2 [bs "LPUSH"; bs "q"; bs "a"] None; at0 2 [bs "LPOP"; bs "q"] None; at0 2 [bs "LPUSH"; bs "r"; bs "b"] None;
+   EWakeups].
